@@ -130,7 +130,13 @@ func (p *Proxy) SetAttr(name string, value Object) error {
 			if result == nil {
 				field.SetZero()
 			} else {
-				field.Set(reflect.ValueOf(result))
+				rv := reflect.ValueOf(result)
+				// The converter of a struct-valued field works with pointers to
+				// the struct: store the struct itself
+				if field.Kind() == reflect.Struct && rv.Kind() == reflect.Pointer && !rv.IsNil() {
+					rv = rv.Elem()
+				}
+				field.Set(rv)
 			}
 			return nil
 		} else {
